@@ -30,17 +30,6 @@ def classify(tags, mode, st):
             return "X86-16bit-addressing-in-bits32"
         if not mem["dt"] and tags.get("asize") == 16 and mode == 32 and w == 32 and not (b or i):
             return None
-    if imm is not None and ("imm" in form):
-        # after fix a692d8e registers and typed memory alone decide the prefix; the size class of the immediate is only
-        # consulted when no operand fixes the size (PUSH imm, untyped memory destination)
-        has_reg_op = any(o[0] == "add" and o[1][1][0] == "id" for o in st[2]) if st[0] == "mn" else False
-        sized = has_reg_op or bool(mem and mem["dt"])
-        c = imm_class(imm)
-        if not (form.startswith(("in ", "out ", "int")) or sized):
-            if mode == 16 and c >= 32:
-                return "X86-imm-class-prefix"
-            if mode == 32 and c == 16:
-                return "X86-imm-class-prefix"
     if imm is not None and st[0] == "mn" and st[1] in ("ADD", "OR", "ADC", "SBB", "AND", "SUB", "XOR", "CMP") and w in (16, 32) \
             and imm >= 2 ** (w - 1) and imm - 2 ** w >= -128:
         return "C18-unsigned-imm-not-sign-extended"      # only ever a C18 failure: the full-width form is a correct encoding
